@@ -527,33 +527,29 @@ impl<R: Read, TSpec> TagIterator<R, TSpec>
     }
 
     fn roll_up_children(tag_id: u64, children: Vec<TSpec>) -> TSpec {
-        let mut rolled_children = Vec::new();
+        let to_full = |id: u64, children: Vec<TSpec>| {
+            TSpec::get_master_tag(id, Master::Full(children)).unwrap_or_else(|| panic!("Bad specification implementation: Tag id 0x{:x?} type was master, but could not get tag!", id))
+        };
 
-        let mut iter = children.into_iter();
-        while let Some(child) = iter.next() {
-            #[cfg(feature = "verif-hooks")] crate::verif::tick();
-            if let Some(Master::Start) = child.as_master() {
-                let child_id = child.get_id();
-                // Masters with the same id can be nested, so look for the `End` that matches this `Start`
-                let mut nested = 0;
-                let subchildren = iter.by_ref().take_while(|c| {
-                    if c.get_id() == child_id {
-                        match c.as_master() {
-                            Some(Master::Start) => nested += 1,
-                            Some(Master::End) if nested == 0 => return false,
-                            Some(Master::End) => nested -= 1,
-                            _ => {},
-                        }
-                    }
-                    true
-                }).collect();
-                rolled_children.push(Self::roll_up_children(child_id, subchildren));
-            } else {
-                rolled_children.push(child);
+        // Masters that are currently open, innermost last, each with the children collected for it so far.
+        // (An explicit stack rather than recursion: the nesting depth is controlled by the input.)
+        let mut open_masters: Vec<(u64, Vec<TSpec>)> = vec![(tag_id, Vec::new())];
+        for child in children {
+            match child.as_master() {
+                Some(Master::Start) => open_masters.push((child.get_id(), Vec::new())),
+                Some(Master::End) if open_masters.len() > 1 && open_masters[open_masters.len() - 1].0 == child.get_id() => {
+                    let (id, grandchildren) = open_masters.pop().unwrap();
+                    open_masters.last_mut().unwrap().1.push(to_full(id, grandchildren));
+                },
+                _ => open_masters.last_mut().unwrap().1.push(child),
             }
         }
 
-        TSpec::get_master_tag(tag_id, Master::Full(rolled_children)).unwrap_or_else(|| panic!("Bad specification implementation: Tag id 0x{:x?} type was master, but could not get tag!", tag_id))
+        while open_masters.len() > 1 {
+            let (id, grandchildren) = open_masters.pop().unwrap();
+            open_masters.last_mut().unwrap().1.push(to_full(id, grandchildren));
+        }
+        to_full(tag_id, open_masters.pop().unwrap().1)
     }
 
     ///
